@@ -35,9 +35,9 @@ def plan(tier, seed):
     rng = (1, 2, 3, 4) if tier == "quick" else (1, 2, 3, 4, 5, 6)
     meshes = list(itertools.product(rng, repeat=3))
     if tier == "quick":
-        meshes = [m for m in meshes if sorted(m) in ([1, 1, 1], [2, 2, 2], [3, 3, 3], [4, 4, 4]) or len(set(m)) >= 2 and sum(m) <= 9]
+        meshes = [m for m in meshes if sorted(m) in ([1, 1, 1], [2, 2, 2], [3, 3, 3], [4, 4, 4]) or len(set(m)) >= 2 and sum(m) <= 9 or sorted(m) == [2, 4, 4]]
     nconf = 0
-    for name in (LATTICES if tier != "quick" else LATTICES[:9]):
+    for name in (LATTICES if tier != "quick" else LATTICES[:9]) + ["tet-a-2", "tet-b-2"]:
         for mchunk in range(0, len(meshes), 8):
             g = []
             for mesh in meshes[mchunk:mchunk + 8]:
@@ -97,7 +97,7 @@ def plan(tier, seed):
                     g.append({"kind": "phys", "xtal": name, "mesh": mesh, "shift": sh, "gc": gc, "tr": True, "nac": "wang"})
         groups.append(g)
     meta = {"alphabet": {"lattices": LATTICES, "meshes": len(meshes), "shifts": [str(s) for s in SHIFTS], "grid_configurations": nconf},
-            "bound": "complete product", "exhaustive": True, "not_covered": ["mesh numbers above 4 (quick) / 6 (thorough)", "GeneralizedRegularGridPoints"]}
+            "bound": "complete product", "exhaustive": True, "not_covered": ["mesh numbers above 4 (quick; non-uniform meshes with sum > 9 other than the permutations of 2,4,4) / 6 (thorough)", "GeneralizedRegularGridPoints"]}
     return groups, meta
 
 
